@@ -465,13 +465,17 @@ func mutatePipe(g *impGen, o *gen.Out, c pipeCfg) pipeCfg {
 		default:
 			if len(n.conns) > 0 {
 				i := r.Intn(len(n.conns))
-				switch r.Intn(3) {
+				switch r.Pick(2, 2, 3, 2) {
 				case 0:
 					n.conns[i].name = n.conns[i].name%9 + 1
 					o.Count("mut=conn-name")
 				case 1:
 					n.conns[i].settings = n.conns[i].settings%3 + 1
 					o.Count("mut=conn-settings")
+				case 2:
+					// plugin is a mutable connector field: same id and type, the position must survive
+					n.conns[i].plugin = n.conns[i].plugin%3 + 1
+					o.Count("mut=conn-plugin")
 				default:
 					// move a processor between connector and pipeline
 					if len(n.conns[i].procs) > 0 && len(n.procs) < 5 {
@@ -560,10 +564,13 @@ func genImport(r *gen.Rand, o *gen.Out, _ int) string {
 			cur[pid], have[pid] = c, true
 		}
 		// positions and status writes in between
-		if have[pid] && len(cur[pid].conns) > 0 && r.Chance(1, 2) {
+		// positions of sources and destinations written between imports (what the persister does)
+		if have[pid] && len(cur[pid].conns) > 0 && r.Chance(3, 4) {
 			cs := cur[pid].conns
-			ops = append(ops, fmt.Sprintf("ss %d %d", cs[r.Intn(len(cs))].id, r.Range(1, 9)))
-			o.Count("op=ss")
+			for j := r.Range(1, 2); j > 0; j-- {
+				ops = append(ops, fmt.Sprintf("ss %d %d", cs[r.Intn(len(cs))].id, r.Range(1, 9)))
+				o.Count("op=ss")
+			}
 		}
 		if have[pid] && r.Chance(1, 12) {
 			ops = append(ops, fmt.Sprintf("st %d %d", pid, []int{1, 3, 3, 2, 4}[r.Intn(5)]))
